@@ -146,7 +146,44 @@ CLAIMS = {
         + _D + "every numeric contract (fraction range, tolerance agreement, idempotence, decomposition, fits).",
         technique="rounding roles + guard-first lint + axis-tag inference (ast)"),
 }
-for _c in CLAIMS.values():
+# clauses added after the first version of the claims (seeding rounds 1 and 2, defects F17-F22)
+ALSO = {
+    "C01": "a memoised function over CRS-tagged operands keys on the operand or its CRS; a truncated/weakened guard (`crs is not None and ...`) does not count.",
+    "C02": "integer index -> slice only after negative values were adjusted; GCP control-point frame <-> view frame conversions apply the view affine the right way; "
+           "every GCPGeoBox member whose GeoBox sibling is computed from the affine reads the view affine too.",
+    "C03": "the read-shrink rescaling is composed on the side of the dst->src transform that _can_paste validates; a mid-point is half the sum of the two ends.",
+    "C04": "window-relative index in the assembler; tiling and geobox of a tile agree; locate siblings agree.",
+    "C05": "both axes are padded with the shared level count; the source is rechunked unless its whole chunk shape equals the layout's; the write-order list is not "
+           "re-sorted after the level reversal; every source block named from a layout tile index is bounded by the source's chunk grid (F21).",
+    "C06": "every normal exit of append logs what it stored; the lhs reservation reaches every chunk of a bunch.",
+    "C07": "the transformer cache key is complete (from, to, always_xy).",
+    "C08": "origin comes from snap_grid; bbox of the polygon after re-projection.",
+    "C09": "the Dataset variant does not route per-variable results through Dataset.map (attributes as computed by the DataArray sibling, F22); GeoBox/GCPGeoBox cached "
+           "by the accessor survive pickling (custom pickle hooks pass every constructor parameter feeding __eq__, no closures in state).",
+    "C10": "rotation tolerance not relaxed; same shrink-side agreement as C03; no repeated operand in is_affine_st; explicit dst_nodata=0 is not treated as None.",
+    "C11": "the footprint is densified by the projection call on every branch; a square resolution is never built from one axis of the source; transformer key complete.",
+    "C12": "the emptiness test is on the intersection itself; footprint densified on every branch; no inward half-pixel shift of tile ranges.",
+    "C13": "plane axis of the fill block; a hand-built array graph's layer name is unique or a token of every parameter reaching the tasks; a loop-local memo is keyed by "
+           "everything its value depends on; tile ranges round outwards.",
+    "C14": "a tile is yielded for a polygon query only under the not-disjoint test against that tile's extent; tile size per axis from that axis' resolution.",
+    "C15": "band-last input is permuted exactly (Y,X,B)->(B,Y,X); one side-car memory file per layer; default-overview threshold is 512 pixels; explicit nodata first.",
+    "C16": "overlap_roi clamps both ends of both ranges (F18); every box contributes to the union fold; an almost-integer translation is rounded, not truncated; "
+           "sub-pixel parts only through odc.geo.math helpers.",
+    "C17": "roi_pad normalises through the negative-index path; rounding of scaled_down_shape is upward.",
+    "C18": "the shared distributed Variable is written on the worker path only inside the lock region; the file sink appends only after the first part replaced the "
+           "destination; a configured limit of 0 is reported, not replaced by the default.",
+    "C19": "no class pickled by the default protocol stores a closure (F19); GeoJSON readers on the unpickle path handle GeometryCollection (F20); __reduce__ passes every "
+           "constructor parameter feeding __eq__; a case fold in a cache key is matched by the same fold of the cached value.",
+    "C20": "abs() is never taken after a directional rounding of a signed value; a fallback_* parameter never conditions the measurement it stands in for.",
+}
+_GENERIC = (
+    " Over the anchored modules also: no repeated operand of and/or / self-comparison / repeated elif test (R-DUP), no truth test of an optional-number "
+    "parameter (R-TRUTHY), no absolute-epsilon affine predicate on a pixel->world affine (R-ABSEPS), no under-keyed loop-local memo (R-MEMO), no fmod/modf/trunc "
+    "outside odc.geo.math (R-REMAINDER); these zero-count rules are re-armed on every run by in-memory positive controls."
+)
+for _k, _c in CLAIMS.items():
     _c["note"] = _NOTE
+    _u = _c["text"].index(_D)
+    _c["text"] = _c["text"][:_u] + "Also: " + ALSO[_k] + _GENERIC + " " + _c["text"][_u:]
 
 NOT_APPLICABLE = {}
